@@ -375,11 +375,34 @@ class ArrayExpr(SingletonExpr):
     # (aligned Blockwise / Elemwise), see ``_slice_pushdown``.
     _unifies_operand_chunks = False
 
+    def _pushed_onto_advertised_chunks(self, parent, result, accept):
+        """``result`` (``parent`` pushed into this chunk-unifying node) on the
+        chunks ``parent`` advertises: rechunked onto them, or -- when the
+        re-unified layout even changes the shape, as for a contraction with
+        one partial result per contracted block -- pushed into the operands
+        after they have been put on the unified layout, so that nothing is
+        unified a second time."""
+        onto = self._onto_advertised_chunks(result, parent.chunks)
+        if onto is not None:
+            return onto
+        aligned = self._lower()
+        if aligned is None:
+            return None
+        retry = getattr(aligned, accept)(parent)
+        if retry is not None and _chunks_match(retry.chunks, parent.chunks):
+            return retry
+        return None
+
     @staticmethod
     def _onto_advertised_chunks(result, chunks):
         """``result`` rechunked to ``chunks``; None (decline the rewrite) when
         sizes are unknown and a rechunk cannot be planned."""
         if any(math.isnan(c) for dim in (*chunks, *result.chunks) for c in dim):
+            return None
+        if tuple(map(sum, result.chunks)) != tuple(map(sum, chunks)):
+            # Not the same array laid out differently: a contraction with one
+            # partial result per contracted block changes its very shape when
+            # the contracted axis is unified differently.
             return None
         from dask_array._rechunk import Rechunk
 
@@ -470,7 +493,7 @@ class ArrayExpr(SingletonExpr):
             # on another layout than the sliced result advertises, and
             # consumers were built against that one (block counts decide e.g.
             # whether a contraction sums or squeezes): bring it back.
-            result = self._onto_advertised_chunks(result, slice_expr.chunks)
+            result = self._pushed_onto_advertised_chunks(slice_expr, result, "_accept_slice")
         if result is not None:
             # The push only proceeds when every other consumer is itself a slice
             # (checked above), so ``self`` is normally replaced outright by the
@@ -520,7 +543,7 @@ class ArrayExpr(SingletonExpr):
         if result is not None and self._unifies_operand_chunks and not _chunks_match(result.chunks, shuffle_expr.chunks):
             # As in ``_slice_pushdown``: unifying the taken operands again
             # must not move the result off the chunks the take advertises.
-            result = self._onto_advertised_chunks(result, shuffle_expr.chunks)
+            result = self._pushed_onto_advertised_chunks(shuffle_expr, result, "_accept_shuffle")
         if result is not None:
             # No other dependents (checked above), so ``self`` is fully
             # replaced: unlink so a transitive shuffle descends this same pass.
